@@ -19,7 +19,7 @@ KEYS = ["k1", "k2", "sesame"]
 # scenes that belong to a profile's subject are drawn more often there (half of the scenes of that profile)
 SCENE_BIAS = {
     "kti": ["kick_repeat", "kick_ranks", "topic_lock", "invite_ranks", "invite_ranks", "invite_key", "invite_recreate", "invite_ban", "limit_invite", "halfop_mode"],
-    "mode": ["list_masks", "ranks_ladder", "halfop_mode", "topic_lock", "moderated_prefix", "ban_case", "invite_key", "limit_invite", "kick_ranks"],
+    "mode": ["pre_bans", "list_masks", "ranks_ladder", "halfop_mode", "topic_lock", "moderated_prefix", "ban_case", "invite_key", "limit_invite", "kick_ranks"],
     "nick": ["voice_rename", "wallops_rename", "case_twins", "rename_masks", "pre_rename", "ban_case"],
     "join": ["list_masks", "pre_bans", "pre_bans", "invite_key", "invite_recreate", "invite_ban", "limit_invite", "quota_invisible", "rejoin_list", "ban_case", "case_twins"],
     "member": ["rejoin_list", "kick_repeat", "voice_rename", "kick_ranks", "pre_rename", "ranks_ladder"],
@@ -129,7 +129,9 @@ class Gen:
         # operators
         self.opers = []
         if r.random() < 0.8:
-            mask = r.choice(["-", "-", "+" + esc("*!*@127.0.0.1"), "+" + esc("oper!*@*"), "+" + esc("*!~o*@*")])
+            mask = r.choice(["-", "-", "+" + esc("*!*@127.0.0.1"), "+" + esc("oper!*@*"), "+" + esc("*!~o*@*"),
+                             # short forms are NOT completed for operator masks: they simply never match a nick!user@host
+                             "+oper", "+" + esc("oper@127.0.0.1"), "+" + esc("oper!~uop")])
             lines.append("cfg oper oper operpw %s" % mask)
             self.opers.append(("oper", "operpw"))
             if r.random() < 0.2:
@@ -154,7 +156,7 @@ class Gen:
             limit = r.choice(["-", "-", "+1", "+2"])
             def pick(pool, p=0.3):
                 return [x for x in pool if r.random() < p]
-            pb = 0.35 if self.profile in ("join", "chanlife", "speak") else 0.15
+            pb = 0.35 if self.profile in ("join", "chanlife", "speak", "mode") else 0.15
             bans, excs, invs = pick(MASKS[:6], pb), pick(MASKS[:6], 0.1), pick(MASKS[:6], 0.1)
             ranks = [pick(NICKS, 0.2), pick(NICKS, 0.15), pick(NICKS, 0.25), pick(NICKS, 0.2), pick(NICKS, 0.25)]
             if r.random() < 0.3:
@@ -671,7 +673,9 @@ class Gen:
                     return
                 self.register(o, opn)
             L(o, "JOIN " + pch + r.choice(["", " k1"])); L(o, "MODE %s b" % pch)
-            m = r.choice(["zz!*@*", "*!*@10.9.9.9", nb + "!*@*"] + self.pre_masks[:2])
+            m = r.choice(["zz!*@*", "*!*@10.9.9.9", nb + "!*@*"] + self.pre_masks[:2] * 2)
+            if self.pre_masks and r.random() < 0.5:
+                L(o, "MODE %s -b %s" % (pch, self.pre_masks[0])); L(o, "MODE %s b" % pch)
             L(o, "MODE %s +b %s" % (pch, m)); L(o, "MODE %s -b %s" % (pch, m))
             if r.random() < 0.5: L(o, "MODE %s -b nobody!*@*" % pch)
             L(o, "MODE %s b" % pch); L(b, "JOIN " + pch + r.choice(["", " k1"])); L(a, "JOIN " + pch + r.choice(["", " k1"]))
